@@ -151,6 +151,43 @@ def run(ctx):
                 if not cc.same_decode(a, c):
                     ctx.violation("correspondence:C01.decode(deflate)", {"frame": z.hex()[:3000], "impl": str(a)[:400], "model": str(c)[:400]}, found_input=False)
             m.close()
+    # large compressed frames: a peer may deflate ANY valid frame, also one that inflates to more than 2^20 bytes
+    # (a size/streaming limit in the inflate step misbehaves exactly there).  The frame is hand-built here from
+    # the format (list header, raw tag, 20/31-bit binary), independent of the library's encoder.
+    def raw_str(b):                                   # 252 len8 | 253 len20 | 254 len31
+        n = len(b)
+        if n < 256:
+            return bytes([252, n]) + b
+        if n < (1 << 20):
+            return bytes([253, (n >> 16) & 0x0F, (n >> 8) & 0xFF, n & 0xFF]) + b
+        return bytes([254, (n >> 24) & 0x7F, (n >> 16) & 0xFF, (n >> 8) & 0xFF, n & 0xFF]) + b
+
+    def list_hdr(n):
+        return bytes([248, n]) if n < 256 else bytes([249, n >> 8, n & 0xFF])
+    bigs = []
+    sizes = [(1 << 20) - 64, (1 << 20) - 1, 1 << 20, (1 << 20) + 1, 1500000] + ([3 << 20, 5000000] if ctx.tier == "thorough" else [])
+    for n in sizes:
+        payload = bytes((i * 7 + n) & 0xFF for i in range(251)) * (n // 251 + 1)
+        payload = payload[:n]
+        body = list_hdr(2) + raw_str(b"enc") + raw_str(payload)
+        bigs.append(((b"enc", [], payload, []), body))
+    for nkids in (20000,) if ctx.tier == "quick" else (20000, 60000):
+        kid = list_hdr(3) + raw_str(b"item") + raw_str(b"id") + raw_str(b"0123456789abcdef" * 3)
+        body = list_hdr(2) + raw_str(b"list") + list_hdr(nkids) + kid * nkids
+        bigs.append(((b"list", [], None, [(b"item", [(b"id", b"0123456789abcdef" * 3)], None, [])] * nkids), body))
+    big_cases = 0
+    for t, body in bigs:
+        for f in (b"\x00" + body, b"\x02" + zlib.compress(body)):
+            big_cases += 1
+            got = cc.impl_decode(dec, f)
+            if got != ("ok", t):
+                accept_bad += 1
+                ctx.violation("oracle:valid-frame-not-decoded-to-its-tree",
+                              {"tree": None, "tree_summary": cc.tree_json(t), "frame_kind": "deflated" if f[0] == 2 else "plain",
+                               "inflated_body_bytes": len(body), "frame": None if len(f) > 6000 else f.hex(),
+                               "rebuild": "tag %r, %s" % (t[0], ("%d data bytes (i*7+n)&255 pattern" % len(t[2])) if t[2] else "%d identical <item id=...> children" % len(t[3])),
+                               "decoded": str(got)[:300]})
+    ctx.coverage["large_frames_plain_and_deflated"] = big_cases
     if not ctx.proof_ok and not ctx.violations:
         ctx.tie_broken_without_input("theorem:" + ctx.failing_theorem(), ctx.ties.get("proof"))
     for k, v in list(ctx.ties.items()):
